@@ -238,6 +238,10 @@ class World(object):
             g.update(dr.get_dependency_graph(self.comps[t]))
         return g
 
+    def group_graph(self, keys):
+        """the edges the GROUP registry (dr.COMPONENTS[group]) holds for these components: what dr.run(<group>) sorts on"""
+        return dict((c, set(dr.COMPONENTS[dr.get_group(c)][c])) for c in keys)
+
     def new_broker(self, seeds, store_skips):
         b = dr.Broker()
         b.store_skips = store_skips
@@ -324,7 +328,7 @@ def canon_val(world, v):
         return "M" + ";".join(str(x) for x in v)
     if isinstance(v, plugins._make_skip):
         mr, ma = v.missing
-        return "S" + ";".join(str(world.ids[c]) for c in mr) + "/" + "&".join(";".join(str(world.ids[c]) for c in g) for g in ma)
+        return "S" + ";".join(str(world.ids[c]) for c in mr) + "/" + "&".join((";".join(str(world.ids[c]) for c in g) or "_") for g in ma)
     if isinstance(v, plugins.make_none):
         return "Z"
     if isinstance(v, plugins.Response):
@@ -347,7 +351,7 @@ def uncanon_val(s):
 def canon_broker(world, b, with_trace=True):
     inst = " ".join("%d:%s" % (i, canon_val(world, b.instances[c])) for i, c in enumerate(world.comps) if c in b.instances)
     miss = " ".join("%d:%s/%s" % (i, ";".join(str(world.ids[x]) for x in b.missing_requirements[c][0]),
-                                  "&".join(";".join(str(world.ids[x]) for x in g) for g in b.missing_requirements[c][1]))
+                                  "&".join((";".join(str(world.ids[x]) for x in g) or "_") for g in b.missing_requirements[c][1]))
                     for i, c in enumerate(world.comps) if c in b.missing_requirements)
     excs = []
     for target, lst in b.exceptions.items():
@@ -402,8 +406,8 @@ def gen_spec(rng, n, fault_rate=0.25, with_points=True, with_ignore=False, seede
         ds = [j for j in lower if spec[j]["kind"] in ("datasource", "point")]
         impls = [j for j in lower if spec[j]["kind"] == "datasource" and spec[j].get("impl_of") is None and not spec[j].get("claimed")]
         s = {"items": [], "optional": [], "enabled": rng.random() > 0.07, "ignore": [], "elems": []}
-        if with_points and impls and r < 0.12:
-            k = rng.randint(1, min(3, len(impls)))
+        if with_points and (impls or rng.random() < 0.15) and r < 0.12:
+            k = rng.randint(1, min(3, len(impls))) if impls and rng.random() < 0.92 else 0   # sometimes no implementation at all
             chosen = sorted(rng.sample(impls, k))
             s.update(kind="point", body="p", items=[("g", chosen)], prio=rng.choice([0, 0, 1, 2, 5]))
             for j in chosen:
@@ -428,7 +432,7 @@ def gen_spec(rng, n, fault_rate=0.25, with_points=True, with_ignore=False, seede
             k = rng.choice([0, 1, 1, 2, 2, 3]) if kind != "datasource" else rng.choice([0, 0, 1, 2])
             for _ in range(k):
                 if rng.random() < 0.3 and len(lower) >= 1:
-                    g = [rng.choice(lower) for _ in range(rng.randint(1, 3))]
+                    g = [rng.choice(lower) for _ in range(rng.choice([0, 1, 1, 2, 2, 3, 3]))]   # an EMPTY group is never satisfied
                     s["items"].append(("g", g))
                 else:
                     s["items"].append(("o", rng.choice(lower)))
@@ -575,6 +579,8 @@ def rebuild(case):
         evaluate(world, seeds, case.get("store_skips", False), g1, mode="run")
         world.late_register(*case["late"])
     graph = world.graph_for(case["targets"])
+    if case.get("dropped") is not None and not case.get("_keep_dropped"):
+        graph.pop(world.comps[case["dropped"]], None)
     return world, seeds, graph
 
 
@@ -584,9 +590,9 @@ def generic_replay(data, oracle, observers=()):
     print("replaying case with %d components, targets %s, order %s" % (len(case["spec"]), case.get("targets"), case.get("order")))
     world, seeds, graph = rebuild(case)
     order = None
-    if case.get("order") is not None and not case.get("late"):
+    if case.get("order") is not None and not case.get("late") and case.get("mode") != "run":
         order = [world.comps[i] for i in case["order"]]
-    r = evaluate(world, seeds, case.get("store_skips", False), graph, order=order, mode="run" if case.get("late") else "components",
+    r = evaluate(world, seeds, case.get("store_skips", False), graph, order=order, mode="run" if (case.get("late") or case.get("mode") == "run") else "components",
                  observers=observers)
     print("implementation:", r.text)
     found = []
